@@ -820,7 +820,15 @@ func exhaustive(univ []string, kinds0, kinds1 int, emit func(tcase)) {
 func main() {
 	o := hx.Parse()
 	log.SetLogger(nopLogger{})
-	tmp, err := os.MkdirTemp("", "c04gen-*")
+	// the loader writes every regular file of every layer below os.TempDir(): use a memory file system when there is one
+	base := ""
+	if st, err := os.Stat("/dev/shm"); err == nil && st.IsDir() {
+		base = "/dev/shm"
+	}
+	tmp, err := os.MkdirTemp(base, "c04gen-*")
+	if err != nil {
+		tmp, err = os.MkdirTemp("", "c04gen-*")
+	}
 	must(err)
 	defer os.RemoveAll(tmp)
 	must(os.Setenv("TMPDIR", tmp))
@@ -836,7 +844,7 @@ func main() {
 	jobs := make(chan job, 256)
 	order := make(chan job, 4096)
 	var wg sync.WaitGroup
-	for w := 0; w < 12; w++ {
+	for w := 0; w < 16; w++ {
 		wg.Add(1)
 		go func() {
 			defer wg.Done()
